@@ -102,10 +102,9 @@ static void reb_simulation_add_local(struct reb_simulation* const r, struct reb_
         // simulation was saved/served/copied, which trims N_allocated, between a removal and an addition).
         reb_integrator_ias15_reset(r);
     }
-    if (r->integrator == REB_INTEGRATOR_JANUS){
-        // JANUS notices a changed particle number, but not a removal followed by an addition between two steps.
-        r->ri_janus.recalculate_integer_coordinates_this_timestep = 1;
-    }
+    // JANUS notices a changed particle number, but not a removal followed by an addition between two steps.
+    // Not conditional on the integrator in use: the particles may be exchanged while another integrator is selected.
+    r->ri_janus.recalculate_integer_coordinates_this_timestep = 1;
     if (r->integrator == REB_INTEGRATOR_MERCURIUS){
         struct reb_integrator_mercurius* rim = &(r->ri_mercurius);
         if (r->ri_mercurius.mode==0){ //WHFast part
@@ -412,9 +411,7 @@ int reb_simulation_remove_particle(struct reb_simulation* const r, int index, in
     if (r->integrator == REB_INTEGRATOR_IAS15){
         reb_integrator_ias15_reset(r); // see reb_simulation_add_local
     }
-    if (r->integrator == REB_INTEGRATOR_JANUS){
-        r->ri_janus.recalculate_integer_coordinates_this_timestep = 1; // see reb_simulation_add_local
-    }
+    r->ri_janus.recalculate_integer_coordinates_this_timestep = 1; // see reb_simulation_add_local
     if (r->integrator == REB_INTEGRATOR_MERCURIUS){
         struct reb_integrator_mercurius* rim = &(r->ri_mercurius);
         if (rim->N_allocated_dcrit>0 && index<(int)rim->N_allocated_dcrit){
